@@ -494,3 +494,22 @@ def parse_glyf(glyf, offsets):
     for i in range(len(offsets) - 1):
         out.append(parse_glyph(glyf[offsets[i] : offsets[i + 1]]))
     return out
+
+
+def build_sfnt(sfntVersion, tables):
+    """Assemble a plain sfnt from {tag(bytes): data}; directory sorted by tag, tables in the
+    given order, checksums and search fields correct (head.checkSumAdjustment left as is)."""
+    tags = list(tables)
+    n = len(tags)
+    p2 = 1 << (n.bit_length() - 1) if n else 0
+    hdr = struct.pack(">4sHHHH", sfntVersion, n, p2 * 16, (n.bit_length() - 1) if n else 0, n * 16 - p2 * 16)
+    off = 12 + 16 * n
+    body = b""
+    entries = {}
+    for t in tags:
+        d = tables[t]
+        entries[t] = (wordsum(d), off, len(d))
+        body += d + b"\0" * (pad4(len(d)) - len(d))
+        off += pad4(len(d))
+    directory = b"".join(struct.pack(">4sLLL", t, *entries[t]) for t in sorted(tags))
+    return hdr + directory + body
